@@ -13,7 +13,7 @@ EXEMPT = [
              "structure-preserving deep copy (discharged by R-LOCKSTEP/C04 and R-PURE/C15; casts replace scalars only)"),
     dict(exc=("ValueError",), func="datapath.DataPath.get_data", text_has="Specify the `data`",
          why="C01-C07 quantify over non-empty documents; Data.__init__ refuses empty containers"),
-    dict(exc=("ValueError",), func="datapath.DataPath._match_specified_multi_type", text_has="SINGLE",
+    dict(exc=("ValueError",), func="datapath.DataPath.get_data", text_has="SINGLE",
          why="documented error of the `single` modifier (C04: 'an error if there are several'); rule paths carry no modifier"),
     dict(exc=("TypeError",), func="data.Data.__init__", text_has="Data is not filterable", chain_has="self.rule.condition.filter(sub_data",
          why="sub_data is non-empty at this call: discharged by R-EXISTS/C05 (the path-exists guard dominates the call)"),
@@ -24,10 +24,28 @@ EXEMPT = [
 ]
 
 
+def exemptions(ctx):
+    """EXEMPT with each entry's function widened to the private helpers it (transitively) calls,
+    so that moving the exempted statement into an extracted helper keeps the exemption (and
+    nothing else gains one: every entry is still pinned by its exception text / reason)."""
+    def build():
+        from ..flatten import helper_closure
+        out = []
+        for ex in EXEMPT:
+            f = ctx.prog.functions.get(ex["func"])
+            if f is None:
+                continue
+            e = dict(ex)
+            e["funcs"] = {g.qualname for g in helper_closure(ctx.prog, f)}
+            out.append(e)
+        return out
+    return ctx.cached("exemptions", build)
+
+
 def exempted(exc, witness, exemptions):
     ofunc, _, otext, oreason = witness[-1]
     for ex in exemptions:
-        if exc not in ex["exc"] or ofunc != ex["func"]:
+        if exc not in ex["exc"] or ofunc not in ex.get("funcs", {ex["func"]}):
             continue
         if "text_has" in ex and ex["text_has"] not in otext:
             continue
